@@ -33,7 +33,7 @@ Definition erase_type (S : schema) (F : features) (t : named_type) : named_type 
   | NInput fs _ rc d => NInput fs [] rc d
   | NObject fs ifs _ d => NObject (visible_fields F fs) (filter (visible_type S F) ifs) [] d
   | NInterface fs _ d => NInterface (visible_fields F fs) [] d
-  | NUnion ms _ d => NUnion ms [] d
+  | NUnion ms _ d => NUnion (filter (visible_type S F) ms) [] d
   end.
 
 Definition erase (S : schema) (F : features) : schema :=
